@@ -77,8 +77,9 @@ def _limit_mem():
     # cap the address space of every process of the Kani run: a CBMC instance that explodes (> 14 GB)
     # must die as "out of memory" (=> undecided) instead of taking the machine down
     import resource
-    gb = int(os.environ.get('VERIF_CBMC_GB', '14'))
-    resource.setrlimit(resource.RLIMIT_AS, (gb << 30, gb << 30))
+    gb = int(os.environ.get('VERIF_CBMC_GB', '0'))
+    if gb:  # off by default: CBMC under RLIMIT_AS fails in ways kani-driver cannot parse (observed with 14 GB)
+        resource.setrlimit(resource.RLIMIT_AS, (gb << 30, gb << 30))
 
 
 RES_RE = re.compile(r'\*\* (\d+) of (\d+) failed')
@@ -253,8 +254,8 @@ def run_property(prop, cfg, tier, repo, scratch, seed):
         # the seed only rotates the order in which shapes are started; every shape of the tier is run
         k = seed % max(1, len(names))
         names = names[k:] + names[:k]
-    jobs = int(os.environ.get('VERIF_KANI_JOBS', '12'))
-    out = run_harnesses(crate, names, jobs=jobs, harness_timeout=cfg.get('kani_timeout', '15m' if tier == 'thorough' else '8m'))
+    jobs = int(os.environ.get('VERIF_KANI_JOBS', '10'))
+    out = run_harnesses(crate, names, jobs=jobs, harness_timeout=cfg.get('kani_timeout', '20m' if tier == 'thorough' else '12m'))
     cov['cmds'].append(out['cmd'])
     if out['compile_error']:
         undecided.append('kani: harness crate does not compile on this tree: %s' % out['compile_error'][:400].replace('\n', ' '))
